@@ -1170,6 +1170,179 @@ def run_sequence(run, model, case):
     log.compare(run, model, case)
 
 
+# ------------------------------------------------------------------------------------------------
+# operation sequences on a PARSED transaction (BIP144 segwit encodings above all): Transaction(raw), the id /
+# hash / raw_sans_segwit read once (the witness-stripped form is cached now), then the object is changed
+# (add_outputs / add_inputs / in-place edit + _reset) and everything is read again.  The property's sentence
+# "the transaction id is the byte-reversed double SHA-256 of the serialisation without witness data, for legacy
+# and segwit transactions alike" is checked on the object as it is at every 'check' step.
+# ------------------------------------------------------------------------------------------------
+
+def monitor_stripped(tx, raw0, modified):
+    cur = current_fields(tx)
+    if not in_range(cur):
+        return None
+    want = ref_encode(cur)                                # reference encoding WITHOUT marker/flag/witnesses
+    want_id = sha256(sha256(want))[::-1].hex()
+    n_out = len(cur['outs'])
+    try:
+        sans, txid, txhash, raw = tx.raw_sans_segwit, tx.id, tx.hash, tx.raw
+    except Exception as e:
+        return f'reading raw_sans_segwit / id / hash / raw raised {err_name(e)}'
+    if sans != want:
+        try:
+            got_n = len(ref_decode(sans)[0]['outs'])
+        except Exception:
+            got_n = '?'
+        return (f'raw_sans_segwit is not the witness-stripped reference encoding of the fields the object holds now '
+                f'(it encodes {got_n} output(s), the object has {n_out})')
+    if txid != want_id or txhash != sha256(sha256(want)):
+        return (f'Transaction.id {txid} is not the reversed double SHA-256 of the serialisation without witness data '
+                f'({want_id})')
+    if not modified and raw != raw0:
+        return 'Transaction.raw of an untouched parsed transaction differs from the bytes it was parsed from'
+    try:
+        back = Transaction(raw)
+        if back.id != txid:
+            return f'parsing Transaction.raw back gives id {back.id}, the object says {txid}'
+    except Exception as e:
+        return f'Transaction(tx.raw) raised {err_name(e)}'
+    return None
+
+
+class ParsedLog(CacheLog):
+    """history of a parsed transaction for Model/C05Cache.v: starts with _raw = the given bytes, segwit flag as parsed"""
+
+    def __init__(self, tx, raw0):
+        super().__init__(tx)
+        self.raw0 = raw0.hex()
+        self.seg = bool(tx.is_segwit_flag)
+
+    def read_one(self, tx, what):
+        try:
+            v = {'raw': lambda: tx.raw.hex(), 'id': lambda: bytes.fromhex(tx.id).hex(),
+                 'hash': lambda: tx.hash[::-1].hex(), 'sans': lambda: tx.raw_sans_segwit.hex()}[what]()
+        except Exception:
+            self.ok = False
+            return
+        self.ops.append([{'hash': 'id'}.get(what, what)])
+        self.reads.append(v)
+
+    def compare(self, run, model, case):
+        if self.ok and self.reads:
+            return run.compare('C05.cache', case, self.reads,
+                               model.call('cache', tx=self.init, ops=self.ops, raw0=self.raw0, seg=self.seg))
+        return True
+
+
+def run_pseq(run, model, case):
+    """case = {'op': 'pseq', 'raw': hex, 'steps': [['touch', what] | ['add_out', rows] | ['add_in', rows] | ['edit', e] |
+    ['reset'] | ['check']]}"""
+    if saturated(run):
+        return
+    raw0 = bytes.fromhex(case['raw'])
+    run.case(case, nontrivial=True, sample=len(json.dumps(case)) < 1500)
+    try:
+        tx = guarded(Transaction, raw0)
+    except Exception as e:
+        run.violation(case, f'Transaction(raw) raised {err_name(e)} on a valid encoding', signature={'op': 'pseq', 'raw': case['raw']})
+        return
+    log = ParsedLog(tx, raw0)
+    run.count('pseq:' + ('segwit' if tx.is_segwit_flag else 'legacy'))
+    modified = False
+    touched = False
+    for k, step in enumerate(case['steps']):
+        name = step[0]
+        if name == 'touch':
+            log.read_one(tx, step[1])
+            touched = touched or step[1] != 'raw'
+        elif name == 'add_out':
+            tx.add_outputs([Output(a, OutputScript(bytes.fromhex(scr))) for a, scr in step[1]])
+            log.fields(tx, 'add')
+            modified = True
+            run.count('pseq:add_out-after-id-read' if touched else 'pseq:add_out-id-never-read')
+        elif name == 'add_in':
+            tx.add_inputs([mk_input(r) for r in step[1]])
+            log.fields(tx, 'add')
+            modified = True
+            run.count('pseq:add_in-after-id-read' if touched else 'pseq:add_in-id-never-read')
+        elif name == 'edit':
+            apply_edit(tx, step[1])
+            log.fields(tx, 'edit')
+            run.count('pseq:edit:' + step[1]['kind'])
+        elif name == 'reset':
+            tx._reset()
+            log.reset()
+            modified = True
+        elif name == 'check':
+            label = 'step %d of a history on a parsed %s transaction' % (k, 'segwit' if tx.is_segwit_flag else 'legacy')
+            bad = monitor_stripped(tx, raw0, modified)
+            if bad:
+                run.violation(case, f'{label}: {bad}', signature={'op': 'pseq', 'case': case})
+                return
+            for what in ('sans', 'id', 'raw'):
+                log.read_one(tx, what)
+            if modified and not check_current(run, model, case, tx, label):
+                return
+    run.count('pseq:cache-history-compared' if log.ok else 'pseq:cache-history-skipped(out-of-range)')
+    log.compare(run, model, case)
+
+
+def gen_pseq(rng, t=None, wits=None):
+    """a parsed transaction (segwit 5 of 6), id/hash/raw_sans_segwit read (mostly) before it is changed by add_outputs /
+    add_inputs / in-place edit + _reset, one to three rounds, checked after each"""
+    if t is None:
+        t, _k, _t = gen_tx(rng, 'small')
+        while not t['ins'] or not t['outs']:
+            t, _k, _t = gen_tx(rng, 'small')
+        wits = gen_wits(rng, t, big_ok=False) if rng.random() < 0.85 else None
+    raw = ref_encode(t, wits, rng.choice([1, 1, 1, 1, 2, 0x80])) if wits is not None else ref_encode(t)
+    n_in, n_out = len(t['ins']), len(t['outs'])
+    steps = []
+    if rng.random() < 0.3:
+        steps.append(['check'])
+    for rnd in range(rng.choice([1, 1, 2, 3])):
+        if rng.random() < 0.85:
+            for what in rng.choice([['id'], ['hash'], ['sans'], ['raw', 'id'], ['id', 'sans', 'raw']]):
+                steps.append(['touch', what])
+        c = rng.random()
+        if c < 0.4:
+            rows = [[g64(rng), g_out_script(rng, False)[1].hex()] for _ in range(rng.choice([1, 1, 2, 3]))]
+            steps.append(['add_out', rows])
+            n_out += len(rows)
+        elif c < 0.6:
+            rows = [[rbytes(rng, 32).hex(), g32(rng), g_in_script(rng, False)[1].hex() if rng.random() < 0.5 else '', g32(rng)]
+                    for _ in range(rng.choice([1, 1, 2]))]
+            steps.append(['add_in', rows])
+            n_in += len(rows)
+        else:
+            for _ in range(rng.choice([1, 1, 2])):
+                d = rng.random()
+                if d < 0.3:
+                    e = {'kind': 'out_amount', 'i': rng.randrange(n_out), 'value': g64(rng)}
+                elif d < 0.5:
+                    e = {'kind': 'out_source', 'i': rng.randrange(n_out), 'value': rbytes(rng, rng.choice([0, 1, 25, 252, 253])).hex()}
+                elif d < 0.6:
+                    e = {'kind': 'out_script_obj', 'i': rng.randrange(n_out), 'value': rbytes(rng, rng.choice([0, 2, 25, 253])).hex()}
+                elif d < 0.75:
+                    e = {'kind': 'in_seq', 'i': rng.randrange(n_in), 'value': g32(rng)}
+                elif d < 0.9:
+                    e = {'kind': 'locktime', 'value': g32(rng)}
+                else:
+                    e = {'kind': 'version', 'value': g32(rng)}
+                steps.append(['edit', e])
+                if rng.random() < 0.2:
+                    steps.append(['touch', rng.choice(['id', 'sans', 'raw'])])      # stale read (the model predicts it)
+            steps.append(['reset'])
+        steps.append(['check'])
+    return {'op': 'pseq', 'raw': raw.hex(), 'steps': steps}
+
+
+PSEQ_DEFAULT_STEPS = [['touch', 'id'], ['add_out', [[777, (b'\x76\xa9\x14' + b'\x22' * 20 + b'\x88\xac').hex()]]], ['check'],
+                      ['touch', 'sans'], ['edit', {'kind': 'locktime', 'value': 98}], ['reset'], ['check'],
+                      ['add_in', [[(b'\x07' * 32).hex(), 3, '', 0xFFFFFFFE]]], ['check']]
+
+
 BLOB_FIELDS = {'claim_name+pay_pubkey_hash': 'claim', 'claim_name+pay_script_hash': 'claim',
                'update_claim+pay_pubkey_hash': 'claim', 'update_claim+pay_script_hash': 'claim',
                'support_claim+data+pay_pubkey_hash': 'support', 'support_claim+data+pay_script_hash': 'support',
@@ -1858,7 +2031,10 @@ def main(run):
         're-read) and the daemon channel-create / channel-signed-stream flows with a real account (set_channel_private_key, '
         'Output.sign, Transaction.create(sign=False), Transaction.sign) checked against the reference encoding of the '
         'fields the object holds at that moment, every raw/id read of the history (stale ones included) compared with the '
-        'cache state machine of Model/C05Cache.v; Transaction.sign runs with the real ledger while another task reads raw/id/size; '
+        'cache state machine of Model/C05Cache.v; pseq: the same on PARSED transactions (corpus, P2WSH-shaped and generated BIP144 encodings, flag 1/2/0x80, '
+        'some legacy): id / hash / raw_sans_segwit / raw read, then add_outputs / add_inputs / in-place edit + _reset, one to three rounds, after each '
+        'the id must be the reversed double SHA-256 of the witness-stripped reference encoding of the fields held NOW and raw_sans_segwit that encoding '
+        '(model: _raw preset to the given bytes, _raw_sans_segwit cache); Transaction.sign runs with the real ledger while another task reads raw/id/size; '
         'db: corpus, P2WSH-shaped segwit and generated legacy/segwit transactions stored through Database.save_transaction_io / '
         'insert_transaction and read back with get_transaction / get_txos; parsed outputs built from template values are '
         're-interpreted (template, values, claim predicates; payloads up to 70001 bytes); link: B takes Input.spend(A.outputs[i]) / A.outputs[i].ref, then A changes (output or '
@@ -1933,6 +2109,16 @@ def main(run):
     # ---- operation sequences on one Transaction object (in-place edits, _reset, re-read)
     for _ in range(vlib.scaled(T, 500, 12000)):
         run_sequence(run, model, gen_sequence(rng))
+    # ---- parsed transactions (corpus, P2WSH-shaped and generated segwit encodings, some legacy): id / hash /
+    # ---- raw_sans_segwit read, THEN the object is changed (add_outputs / add_inputs / edit + _reset), everything re-read
+    for c in corpus:
+        if len(c['raw']) < 8000:
+            run_pseq(run, model, {'op': 'pseq', 'raw': c['raw'], 'steps': c.get('pseq_steps', PSEQ_DEFAULT_STEPS)})
+    for k, (t, wits) in enumerate(boundary_segwit()):
+        if k < vlib.scaled(T, 12, 60):
+            run_pseq(run, model, {'op': 'pseq', 'raw': ref_encode(t, wits, 1).hex(), 'steps': PSEQ_DEFAULT_STEPS})
+    for _ in range(vlib.scaled(T, 400, 8000)):
+        run_pseq(run, model, gen_pseq(rng))
     # ---- the daemon's channel / signed-stream flows with a real account (set_channel_private_key, Output.sign,
     # ---- Transaction.create(sign=False), Transaction.sign)
     # ---- two linked transactions: B spends outputs of A, A changes afterwards, B serialised
@@ -2020,6 +2206,8 @@ def replay(run, case):
         run_cs_read(run, model, bytes.fromhex(case['s']), 'replay')
     elif op == 'seq':
         run_sequence(run, model, {k: v for k, v in case.items() if k != 'at'})
+    elif op == 'pseq':
+        run_pseq(run, model, {k: v for k, v in case.items() if k != 'at'})
     elif op in ('db', 'db_batch'):
         env = Env()
         try:
